@@ -522,7 +522,9 @@ func check(prop, tier string, runsOverride int) int {
 		// confirm in a fresh process
 		m := &minimiser{bin: bin, prop: prop, tier: tier, mode: x.meta.mode, wall: spec.Wall, maxprocs: spec.MaxProcs, tmp: tmp, class: k, seed: x.meta.seed, budget: 80}
 		var plan any
-		if json.Unmarshal(x.c.res.Plan, &plan) == nil {
+		dec := json.NewDecoder(bytes.NewReader(x.c.res.Plan))
+		dec.UseNumber() // keep 64-bit integers of the plan exact
+		if dec.Decode(&plan) == nil {
 			for a := 0; a < 3; a++ {
 				m.budget++
 				if m.fails(plan) {
@@ -650,6 +652,9 @@ func sanitize(s string) string {
 // ---- replay -----------------------------------------------------------------
 
 func replay(path string) int {
+	if abs, err := filepath.Abs(path); err == nil {
+		path = abs
+	}
 	b, err := os.ReadFile(path)
 	if err != nil {
 		fmt.Fprintln(os.Stderr, err)
